@@ -88,6 +88,8 @@ def main():
     seed = int(os.environ.get("VERIF_SEED", "1") or 1)
     if args.skip_lean:
         E.EVIDENCE_DIR = os.path.join(E.WORK, "dev-evidence")
+    if args.replay:
+        E.EVIDENCE_DIR = os.path.join(E.WORK, "replay-evidence")     # a replay is not a run of the check
     if pid not in REGISTRY:
         print(f"unknown property {pid}"); sys.exit(2)
     reg = REGISTRY[pid]
